@@ -11,16 +11,19 @@ import vlib  # noqa: E402
 
 
 def setup():
+    print("[setup] harness (debug)", flush=True)
+    import glob
+    bins = [os.path.basename(p)[:-3] for p in glob.glob(os.path.join(vlib.HARNESS, "src", "bin", "*.rs"))]
+    vlib.cargo_build(bins)
+    print("[setup] generated tables (Gen_*.v) from the built crate", flush=True)
+    import gentables
+    gentables.generate_all()
     print("[setup] coq: full .vo build", flush=True)
     ok, log = vlib.coq_make()
     print(log[-1500:])
     if not ok:
         print("[setup] coq build FAILED")
         return 1
-    print("[setup] harness (debug)", flush=True)
-    import glob
-    bins = [os.path.basename(p)[:-3] for p in glob.glob(os.path.join(vlib.HARNESS, "src", "bin", "*.rs"))]
-    vlib.cargo_build(bins)
     rel = [b for b in bins if b in ("sgcli", "sgv-trend")]
     if rel:
         print("[setup] harness (release, overflow behaviour):", rel, flush=True)
